@@ -460,9 +460,16 @@ class Campaign:
                            stdout=subprocess.PIPE, stderr=subprocess.PIPE, text=True, timeout=3600)
         self.wall_rig += time.time() - t0
         if p.returncode != 0:
-            log(p.stderr[-3000:])
-            raise ToolError("tower_rig failed on %s" % script)
-        info = json.loads(p.stdout.strip().splitlines()[-1])
+            if p.returncode < 0 and os.path.exists(trace) and os.path.getsize(trace) > 0:
+                # the code under test killed the process (abort / stack overflow): judge the trace recorded so far
+                with open(trace, "a") as f:
+                    f.write(json.dumps({"act": "Died", "signal": -p.returncode}) + "\n" + json.dumps({"act": "end"}) + "\n")
+                info = {"aborts": 1}
+            else:
+                log(p.stderr[-3000:])
+                raise ToolError("tower_rig failed on %s" % script)
+        else:
+            info = json.loads(p.stdout.strip().splitlines()[-1])
         self.aborts += info["aborts"]
         # scan the trace: scenario boundaries, max tx id, action histogram
         starts = []
@@ -551,15 +558,23 @@ class Campaign:
         self.events += len(events)
         self.scenarios += len(group)
         for sc_i, sc in enumerate(group):
+            if sc_i >= len(starts):
+                break      # the run ended early (watchdog / process death): later scenarios were not executed
             lo = starts[sc_i]
             hi = starts[sc_i + 1] if sc_i + 1 < len(starts) else len(events) + 1
             sig = tuple(sorted(set((e["act"], e.get("reply", {}).get("code", ""), bool(e.get("rpc")), e.get("abort", ""))
                                    for e in events[lo - 1:hi - 1])))
             self.distinct.add((cfg_key(cfg), sig))
+        crash_line = {}
+        for i_ev, e in enumerate(events, 1):
+            if e.get("abort") == "crash" or e["act"] == "Crash":
+                sc_k = max(i for i, s0 in enumerate(starts) if s0 <= i_ev)
+                crash_line.setdefault(sc_k, i_ev)
         for t in tags:
             line, prop, what = t[0], t[1], t[2]
             sc_i = max(i for i, s in enumerate(starts) if s <= line)
             self.tags.append({"prop": prop, "what": what, "line": line, "scenario": group[sc_i], "trace": trace,
+                              "after_crash": sc_i in crash_line and line > crash_line[sc_i],
                               "event": events[line - 1], "prev": events[line - 2] if line >= 2 else None})
         if len(self.samples) < 2:
             ev = [e for e in events if e["act"] in ("Add", "WConnect", "RConnect") and e.get("rpc")][:2]
@@ -645,6 +660,15 @@ def fam_outage(rng, cfg=CFG_A, ms=1500):
             ops += [mine([], poll=False)]
         ops += [{"op": "join", "thread": "P1", "ms": ms}, {"op": "end_async"}, get(1, 1), sub(1)]
         out.append(scen("outage-block-k%d" % k, cfg, ops))
+    # (c2) the connection drops exactly at the submission (after the mempool query was answered), request path and block path
+    ops = [reg(1), mine([D(1)]), {"op": "fault", "kind": "rpc_after", "n": 1}, {"op": "spawn_add", "thread": "T1", "u": 1, "l": D(1), "blob": valid(1)},
+           {"op": "wait_flag", "reachable": False}] + refused[:3] + [{"op": "rpc_up", "up": True}, POLL, {"op": "join", "thread": "T1", "ms": ms},
+           {"op": "end_async"}, get(1, 1), sub(1)]
+    out.append(scen("outage-request-atsend", cfg, ops))
+    ops = [reg(1), add(1, 1, valid(1)), {"op": "fault", "kind": "rpc_after", "n": 1}, mine([D(1)], poll=False), {"op": "spawn_poll", "thread": "P1"},
+           {"op": "wait_flag", "reachable": False}] + refused[:3] + [{"op": "rpc_up", "up": True}, {"op": "join", "thread": "P1", "ms": ms},
+           {"op": "end_async"}, get(1, 1), sub(1)]
+    out.append(scen("outage-block-atsend", cfg, ops))
     # (d) plain outage of k polls between requests; the blocks mined meanwhile (with breaches) are processed afterwards
     for k in (1, 2, 3):
         ops = [reg(1), add(1, 1, valid(1)), add(1, 2, valid(2)), down] + [POLL] * k + refused + [mine([D(1)], poll=False), POLL, up,
